@@ -134,11 +134,12 @@ theorem applyTag_rt (w : List Char → Nat) (k : String) (v : Option MetaValue) 
     (hv : ∀ x, v = some x → wfMetaValue x = true) (rest : List Char) :
     applyTag (printEntry w (.applyTag k v) ++ rest) = .ok (.applyTag k v) rest := by
   have hk' := hk
+  have hne : k.toList ≠ [] := by intro h; simp [wfTag, h] at hk
   simp [wfTag, List.all_eq_true, isTagChar] at hk'
   have hkstop : ∀ X, Stop isSpace (k.toList ++ X) := by
     intro X
     cases hkl : k.toList with
-    | nil => simp [hkl] at hk'
+    | nil => exact absurd hkl hne
     | cons c t =>
       have := hk'.2 c (by simp [hkl])
       simp [isAsciiWhitespace] at this
@@ -160,5 +161,165 @@ theorem applyTag_rt (w : List Char → Nat) (k : String) (v : Option MetaValue) 
     have h3 : space0 (printMetaValue x ++ '\n' :: rest) = .ok [] (printMetaValue x ++ '\n' :: rest) :=
       space0_stop (by cases x <;> simp [printMetaValue, isSpace])
     simp [applyTag, printEntry, literal_append, hs1, hs2, htk, h3, opt, metadataValue_rt x hx]
+
+/-! ## repetition over printed lists; multi-line text -/
+
+/-- `repeat0Loop` over the printed forms of a list of items -/
+theorem repeat0Loop_list {α : Type} {p : Parser α} {pr : α → List Char} (F : List Char → Prop) (rest z : List Char)
+    (hstop : p rest = .bt z) (hFrest : F rest) :
+    ∀ (xs : List α), (∀ x ∈ xs, ∀ X, F X → p (pr x ++ X) = .ok x X) → (∀ x ∈ xs, pr x ≠ []) →
+      (∀ x ∈ xs, ∀ X, F (pr x ++ X)) →
+      ∀ (n : Nat) (acc : List α), xs.length < n →
+        repeat0Loop p n (xs.flatMap pr ++ rest) acc = .ok (acc ++ xs) rest := by
+  intro xs
+  induction xs with
+  | nil =>
+    intro _ _ _ n acc hn
+    cases n with
+    | zero => omega
+    | succ n => simp [repeat0Loop_stop hstop]
+  | cons x xs ih =>
+    intro hstep hne hF n acc hn
+    cases n with
+    | zero => omega
+    | succ n =>
+      have hFnext : F (xs.flatMap pr ++ rest) := by
+        cases xs with
+        | nil => simpa using hFrest
+        | cons y ys => simpa [List.append_assoc] using hF y (by simp) (ys.flatMap pr ++ rest)
+      have h1 := hstep x (by simp) (xs.flatMap pr ++ rest) hFnext
+      have hlen : (xs.flatMap pr ++ rest).length < (pr x ++ (xs.flatMap pr ++ rest)).length := by
+        have : (pr x).length > 0 := List.length_pos_iff.mpr (hne x (by simp))
+        simp; omega
+      have := repeat0Loop_step (n := n) (acc := acc) h1 hlen
+      simp only [List.flatMap_cons, List.append_assoc]
+      rw [this, ih (fun y hy => hstep y (by simp [hy])) (fun y hy => hne y (by simp [hy]))
+        (fun y hy => hF y (by simp [hy])) n (acc ++ [x]) (by simp at hn; omega)]
+      simp
+
+theorem splitLines_lines : ∀ (s cur : List Char) (ls : List (List Char)), splitLines s cur = some ls →
+    (∀ l ∈ ls, ∀ c ∈ l, c ≠ '\r') → linesAux s cur = ls ∧ cur.reverse ++ s = ls.flatMap (· ++ ['\n']) := by
+  intro s
+  induction s with
+  | nil =>
+    intro cur ls h _
+    cases cur with
+    | nil => simp [splitLines] at h; subst h; simp [linesAux]
+    | cons c t => simp [splitLines] at h
+  | cons c r ih =>
+    intro cur ls h hno
+    by_cases hc : c = '\n'
+    · subst hc
+      simp [splitLines] at h
+      obtain ⟨ls', h1, h2⟩ := h
+      subst h2
+      have hr := ih [] ls' h1 (fun l hl => hno l (by simp [hl]))
+      have hcur : ∀ c ∈ cur, c ≠ '\r' := by
+        intro c hc'; exact hno cur.reverse (by simp) c (by simp [hc'])
+      have hl : stripCr cur = cur := by
+        cases cur with
+        | nil => rfl
+        | cons d t =>
+          have : d ≠ '\r' := hcur d (by simp)
+          simp [stripCr, this]
+      simp [linesAux, hl, hr.1]
+      have := hr.2; simp at this; simp [this]
+    · have h' : splitLines (c :: r) cur = splitLines r (c :: cur) := by
+        simp [splitLines, hc]
+      rw [h'] at h
+      have hr := ih (c :: cur) ls h hno
+      have hl' : linesAux (c :: r) cur = linesAux r (c :: cur) := by
+        simp [linesAux, hc]
+      rw [hl']
+      refine ⟨hr.1, ?_⟩
+      have := hr.2; simpa using this
+
+
+theorem splitLines_noNl : ∀ (s cur : List Char) (ls : List (List Char)), splitLines s cur = some ls →
+    (∀ c ∈ cur, c ≠ '\n') → ∀ l ∈ ls, ∀ c ∈ l, c ≠ '\n' := by
+  intro s
+  induction s with
+  | nil =>
+    intro cur ls h _
+    cases cur with
+    | nil => simp [splitLines] at h; subst h; simp
+    | cons c t => simp [splitLines] at h
+  | cons c r ih =>
+    intro cur ls h hcur
+    by_cases hc : c = '\n'
+    · subst hc
+      simp [splitLines] at h
+      obtain ⟨ls', h1, h2⟩ := h
+      subst h2
+      intro l hl
+      rcases List.mem_cons.mp hl with rfl | hl
+      · intro c hc; exact hcur c (by simpa using hc)
+      · exact ih [] ls' h1 (by simp) l hl
+    · have h' : splitLines (c :: r) cur = splitLines r (c :: cur) := by
+        simp [splitLines, hc]
+      rw [h'] at h
+      exact ih (c :: cur) ls h (by
+        intro d hd
+        rcases List.mem_cons.mp hd with rfl | hd
+        · exact hc
+        · exact hcur d hd)
+
+theorem length_le_flatMap {α : Type} (pr : α → List Char) (xs : List α) (h : ∀ x ∈ xs, pr x ≠ []) :
+    xs.length ≤ (xs.flatMap pr).length := by
+  induction xs with
+  | nil => simp
+  | cons a t ih =>
+    have h1 : (pr a).length > 0 := List.length_pos_iff.mpr (h a (by simp))
+    have h2 := ih (fun y hy => h y (by simp [hy]))
+    simp only [List.flatMap_cons, List.length_append, List.length_cons]
+    omega
+
+/-- `multiline_text(prefix)` reads back the lines `LineWrapStr` printed -/
+theorem multilineText_rt {α : Type} {pfx : Parser α} {P : List Char} {x : α} (startBad : Char → Bool) (s : String)
+    (hwf : wfMultiline startBad s.toList = true)
+    (hp : ∀ l X, (∀ c r, l = c :: r → startBad c = false) → pfx (P ++ (l ++ '\n' :: X)) = .ok x (l ++ '\n' :: X))
+    (hPne : P ≠ []) (rest z : List Char) (hstop : pfx rest = .bt z) :
+    multilineText pfx (lineWrap P s ++ rest) = .ok s rest := by
+  unfold wfMultiline at hwf
+  cases hsp : splitLines s.toList [] with
+  | none => simp [hsp] at hwf
+  | some ls =>
+    simp [hsp, List.all_eq_true] at hwf
+    obtain ⟨hne, hall⟩ := hwf
+    have hnoCr : ∀ l ∈ ls, ∀ c ∈ l, c ≠ '\r' := fun l hl c hc => (hall l hl).1 c hc
+    have hnoNl := splitLines_noNl s.toList [] ls hsp (by simp)
+    have hlines := splitLines_lines s.toList [] ls hsp hnoCr
+    have hnoEol : ∀ l ∈ ls, ∀ c ∈ l, isEol c = false := by
+      intro l hl c hc
+      simp [isEol, hnoCr l hl c hc, hnoNl l hl c hc]
+    let line : Parser (List Char) := delimited pfx tillLineEnding lineEndingOrEof
+    let pr : List Char → List Char := fun l => P ++ (l ++ ['\n'])
+    have hline : ∀ l ∈ ls, ∀ X, True → line (pr l ++ X) = .ok l X := by
+      intro l hl X _
+      have hb : ∀ c r, l = c :: r → startBad c = false := by
+        intro c r e; have := (hall l hl).2; subst e; simpa using this
+      have h1 := hp l X hb
+      simp [line, pr, List.append_assoc] at h1 ⊢
+      simp [h1, tillLineEnding_nl (hnoEol l hl)]
+    have hlstop : line rest = .bt z := by simp [line, hstop]
+    have hlw : lineWrap P s = ls.flatMap pr := by
+      simp [lineWrap, lines, hlines.1, pr]
+    cases ls with
+    | nil => simp at hne
+    | cons l0 ls' =>
+      have h0 := hline l0 (by simp) (ls'.flatMap pr ++ rest) trivial
+      have hrest := repeat0Loop_list (p := line) (pr := pr) (fun _ => True) rest z hlstop trivial ls'
+        (fun y hy => hline y (by simp [hy])) (fun y _ => by simp [pr, hPne]) (fun _ _ _ => trivial)
+        ((ls'.flatMap pr ++ rest).length + 1) [l0] (by
+          have := length_le_flatMap pr ls' (fun y _ => by simp [pr, hPne])
+          rw [List.length_append]; omega)
+      have hs : s = String.ofList ((l0 :: ls').flatMap (· ++ ['\n'])) := by
+        have := hlines.2; simp at this
+        rw [← String.ofList_toList (s := s)]; simp [this]
+      simp only [multilineText, map_apply, hlw, List.flatMap_cons, List.append_assoc, repeat1]
+      rw [show line = delimited pfx tillLineEnding lineEndingOrEof from rfl] at h0 hrest
+      rw [h0]
+      simp only [hrest]
+      simp [hs]
 
 end Okane.Unparse
